@@ -21,7 +21,7 @@ ASSUMPTIONS = ["covering bands: rectangles 1e-6 rel (LP certificates), ellipsoid
                "Auer: a round is judged only if every first-stage membership is decisive"]
 N = {"quick": 190, "thorough": 3500}
 VARS = ["PaVeBa", "PaVeBaGP-IH", "PaVeBaGP-DE", "PartialGP-rect", "PartialGP-ell", "VOGP", "EpsilonPAL", "Auer", "Auer-emp", "Auer-emp", "VOGP"]
-REQUIRE = {"quick": {"must_admit": 300, "must_hold": 1500, "must_useful": 50, "must_not_useful": 50, "auer_held_back": 5, "many_design_runs": 6, "eps_zero_runs": 30, "eps_zero_auer_rounds": 100, "auer_blocked_only_by_per_objective_sum": 10, "runs": 150, "vogp_ad_runs": 10,
+REQUIRE = {"quick": {"runs_reaching_200_rounds": 4, "must_admit": 300, "must_hold": 1500, "must_useful": 50, "must_not_useful": 50, "auer_held_back": 5, "many_design_runs": 6, "eps_zero_runs": 30, "eps_zero_auer_rounds": 100, "auer_blocked_only_by_per_objective_sum": 10, "runs": 150, "vogp_ad_runs": 10,
                      **{f"must_admit::{v}": 8 for v in set(VARS)}, **{f"must_hold::{v}": 20 for v in set(VARS)}}}
 TIMEOUT = {"quick": 1500, "thorough": 7200}
 
@@ -61,6 +61,22 @@ def directed_d9(mon):
         for st in tr.steps:
             if st["crash"] is None:
                 runchecks.check_admit(mon, tr, st)
+
+
+LONG = ["Auer", "PaVeBaGP-IH", "VOGP", "Auer-emp", "EpsilonPAL", "PartialGP-rect", "PaVeBaGP-DE", "PaVeBa"]
+
+
+def long_run(mon, rng, k):
+    """260-330 rounds of the same few designs (anything periodic in the round counter is passed several times)"""
+    variant = LONG[k % len(LONG)]
+    case, order = runs.long_case(rng, variant)
+    tr = runs.run_case(case, order, mon, max_extra_steps=0)
+    mon.count("runs")
+    mon.count("long_runs")
+    for st in tr.steps:
+        if st["crash"] is None:
+            runchecks.check_admit(mon, tr, st)
+            runchecks.check_useful(mon, tr, st)
 
 
 def ad_run(mon, rng, deep=False):
@@ -135,6 +151,9 @@ def directed_many_designs(mon, rng):
 
 
 def shard(mon, tier, rng, shard_no, nshards):
+    for j in range(1 if tier == "quick" else 4):
+        if tier == "thorough" or shard_no % 2 == 0:
+            long_run(mon, rng, shard_no // 2 + j)
     if shard_no % 2 == 0 or tier == "thorough":
         for _ in range(1 if tier == "quick" else 6):
             directed_many_designs(mon, rng)
